@@ -3,6 +3,7 @@
 #include <memory>
 #include <optional>
 #include "common_types.h"
+#include "crash.h"
 #ifdef TEAKRA_VERIF
 #include "verif_hooks.h"
 #endif
@@ -13,6 +14,8 @@ struct SharedMemory {
     std::unique_ptr<std::array<u8, 0x80000>> own_memory;
     // Points to either own own memory or user-supplied memory
     u8* raw;
+
+    static constexpr u32 MemorySize = 0x80000;
 
     SharedMemory(u8* mem = nullptr) : raw{mem} {
         if (mem == nullptr) {
@@ -26,6 +29,7 @@ struct SharedMemory {
         if (Verif::mem_observer)
             Verif::mem_observer(this, word_address, false, 0);
 #endif
+        ASSERT(word_address < MemorySize / 2);
         u32 byte_address = word_address * 2;
         u8 low = raw[byte_address];
         u8 high = raw[byte_address + 1];
@@ -38,6 +42,7 @@ struct SharedMemory {
 #endif
         u8 low = value & 0xFF;
         u8 high = value >> 8;
+        ASSERT(word_address < MemorySize / 2);
         u32 byte_address = word_address * 2;
         raw[byte_address] = low;
         raw[byte_address + 1] = high;
